@@ -423,6 +423,27 @@ class LenInterp:
                 return Iv(1, INF) if v.kind == "num" else v
             if isinstance(e.func, ast.Name) and e.func.id in ("int", "float", "len", "abs", "round", "sum", "min", "max"):
                 return Iv(1, INF, "num")
+            # a helper of the writer that returns the text: the join of its return expressions, evaluated in the helper
+            cs = self.ctx.cg.resolve_call(fi, e, self.ctx.cg.local_types(fi), set(params_of(fi.node)))
+            if cs.kind == "tucan" and getattr(self, "_inline_depth", 0) < 3:
+                h = cs.target
+                rets = [r for r in own_walk(h.node) if isinstance(r, ast.Return) and r.value is not None]
+                if rets and not any(isinstance(x, (ast.Yield, ast.YieldFrom)) for x in own_walk(h.node)):
+                    henv = {}
+                    for p_, a_ in zip(params_of(h.node), e.args):
+                        henv[p_] = self.ev(fi, a_, env)
+                    # straight-line local definitions of the helper
+                    self._inline_depth = getattr(self, "_inline_depth", 0) + 1
+                    try:
+                        for st_ in h.node.body:
+                            if isinstance(st_, ast.Assign) and len(st_.targets) == 1 and isinstance(st_.targets[0], ast.Name):
+                                henv[st_.targets[0].id] = self.ev(h, st_.value, henv)
+                        out_ = None
+                        for r_ in rets:
+                            out_ = iv_join(out_, self.ev(h, r_.value, henv))
+                    finally:
+                        self._inline_depth -= 1
+                    return out_
             return U(f"call `{short(e, 40)}`")
         if isinstance(e, ast.Attribute):
             c = try_const(self.ctx, fi, e)
